@@ -349,11 +349,40 @@ def r05_12(ctx):
 REVERSERS = r"Iterator>?::rev$|DoubleEndedIterator>?::next_back$|::reverse$|Vec::<.*>::(swap_remove|pop|remove)$|VecDeque::<.*>::pop_back$"
 
 
+def r05_5c(ctx, lagh):
+    """(c) a multi-diff message is yielded to its end: while the plain stream is in the state that holds the rest of a message (an
+    iterator of diffs), that state is replaced only where the iterator is known to be exhausted. Leaving it earlier - "a lag is
+    coming anyway", a budget - drops diffs of a received transaction."""
+    F = ctx.facts
+    for f in F.find(crate=IM, name="poll_next"):
+        st = f.raw.get("self_ty") or ""
+        if f.raw.get("impl_trait") != "futures_core::Stream" or not st.startswith("vector::subscriber::VectorSubscriberStream<"):
+            continue
+        b = inl(F, f, lagh, desugar=True, tag="r05.5c") or f.built
+        sites = [blk for blk, t in b.calls(r"^std::mem::(replace|take|swap)$") if t["args"] and mentions_field(b.expr_of_op(t["args"][0]), "state")]
+        sites += [loc[0] for loc, s_ in assigns_to_field(b, "state")]
+        k = 0
+        for blk in sorted(set(sites)):
+            facts = conds.bare(conds.dominating_facts(b, blk))
+            holding = [x for x in facts if x[0] == "variant" and mentions_field(x[1], "state") and not (x[2] <= frozenset(["Recv"]))]
+            if not holding:
+                continue   # a transition out of the receiving state
+            k += 1
+            done = any((x[0] == "cmp" and x[1] == "Eq" and contains(x[2], lambda y: y[0] == "call" and ecall_matches(y, r"ExactSizeIterator>?::len$|::len$")) and is_const_int(x[3], 0))
+                       or (x[0] == "truth" and x[2] is True and x[1][0] == "call" and ecall_matches(x[1], r"::is_empty$"))
+                       or (x[0] == "variant" and x[2] == frozenset(["None"]) and x[1][0] == "call" and ecall_matches(x[1], r"Iterator>?::next$|::pop_front$|::peek$")) for x in facts)
+            ctx.verdict(done, "R05.5", f, "message-yielded-to-its-end", b.line_at((blk, 10 ** 6)), "the batch state is left only where its iterator is exhausted",
+                        "`%s` leaves the state that holds the rest of a multi-diff message on a path where its iterator is not known to be empty: the remaining diffs of that transaction are dropped, the replica no longer follows the vector" % f.path)
+        if not k:
+            ctx.undecided("R05.5", f, "message-yielded-to-its-end", f.loc(), "no transition out of a batch-holding state found")
+
+
 def r05_5(ctx):
     F = ctx.facts
     n = 0
     from .c06 import find_lag_handler
     lagh = find_lag_handler(F)
+    r05_5c(ctx, lagh)
     for f in F.find(crate=IM):
         if not f.built:
             continue
